@@ -6,3 +6,7 @@ func stepsAvailable() bool { return false }
 func resetSteps()          {}
 func steps() int64         { return 0 }
 func stepBudgetHit() bool  { return false }
+
+func setYieldHook(f func(string)) bool { return false }
+func globalsDump() string               { return "" }
+func disableStepHook() {}
